@@ -4,6 +4,9 @@ import glob, json, os, re
 HERE = os.path.dirname(os.path.dirname(os.path.abspath(__file__)))
 props = [json.loads(l) for l in open(os.path.join(HERE, "properties.jsonl"))]
 present = {os.path.basename(p)[:3].upper() for p in glob.glob(os.path.join(HERE, "props", "c[0-9][0-9]_*.py"))}
+# only modules reviewed and listed in ready.txt are registered
+ready = {l.strip() for l in open(os.path.join(HERE, "ready.txt")) if l.strip()}
+present &= ready
 
 TECH = {
  "C01": "Hypothesis-generated images x ops; metamorphic identity-coordinate-image oracle + independent reference sampling map",
